@@ -224,7 +224,17 @@ func checkCommonRoot(w *World, r *Result) {
 	ntests := 0
 	ast.Inspect(rootFn.Decl.Body, func(x ast.Node) bool {
 		call, ok := x.(*ast.CallExpr)
-		if !ok || fullName(calleeOf(rinfo, call)) != "strings.HasPrefix" {
+		if !ok {
+			return true
+		}
+		// the containment test: strings.HasPrefix itself, or a predicate of the package built on it
+		isTest := fullName(calleeOf(rinfo, call)) == "strings.HasPrefix"
+		if h := w.Funcs[calleeOf(rinfo, call)]; h != nil && h.Pkg == rootFn.Pkg && h != rootFn && h.Decl.Body != nil {
+			if containsStr(callsIn(h.Pkg.TypesInfo, h.Decl.Body), "strings.HasPrefix") {
+				isTest = true
+			}
+		}
+		if !isTest {
 			return true
 		}
 		ntests++
@@ -454,6 +464,10 @@ func checkLoadOrder(w *World, r *Result) {
 	eq := false
 	ast.Inspect(sb.Decl.Body, func(x ast.Node) bool {
 		if be, ok := x.(*ast.BinaryExpr); ok && be.Op == token.EQL && isStringType(sb.Pkg.TypesInfo.TypeOf(be.X)) {
+			eq = true
+		}
+		// slices.Contains on a []string is the same equality
+		if call, ok := x.(*ast.CallExpr); ok && fullName(calleeOf(sb.Pkg.TypesInfo, call)) == "slices.Contains" && len(call.Args) == 2 && isStringType(sb.Pkg.TypesInfo.TypeOf(call.Args[1])) {
 			eq = true
 		}
 		return true
